@@ -151,7 +151,9 @@ class CSSCharsetRule(cssrule.CSSRule):
         else:
             try:
                 codecs.lookup(encoding)
-            except LookupError:
+                # must be a text encoding usable with the 'escapecss' error handler
+                'a\u20ac'.encode(encoding, 'escapecss').decode(encoding)
+            except (LookupError, UnicodeError):
                 self._log.error(
                     'CSSCharsetRule: Unknown (Python) encoding %r.' % encoding
                 )
